@@ -124,7 +124,7 @@ UNKNOWN = {'encr': ['3des', 'aes192', 'AES256'], 'integ': ['md5', 'sha384'], 'pr
 ODD = {'my_addr': ['203.0.113.9', '127.0.0.1', '::1', '0.0.0.0', '192.0.2.1/32', '999.1.1.1', 'not an address', '::ffff:192.0.2.1', '::ffff:c000:201', '::192.0.2.1', '::ffff:198.51.100.7', '2001:db8::1:0'], 'peer_addr': ['300.1.1.1', '', '::ffff:1.2.3.4', 'fe80::1%eth0'],
        'my_subnet': ['10.1.2.3/16', '10.0.0.0/33', 'abc', '::/0'], 'peer_subnet': ['10.1.2.3/16', 'xyz/24'], 'my_port': [-1, 65536, 70000, '23x'], 'peer_port': [-5, 99999],
        'lifetime': [0, -1, 'abc', 10 ** 12, 2 ** 53 + 1, str(2 ** 53 + 1), 'inf', '1e999', 'nan', '-inf', 10 ** 30, '0x10', '1_000', ' 60 ', '６０'],
-       'dpd': [0, -3, 'x', 2 ** 53 + 1, 'inf', '1e999', 'nan', 10 ** 400], 'index': [-1, 0, 2 ** 29, 'x'], 'psk': ['', 'x' * 500, 'päss'], 'id': ['', 'a@b@c', '1.2.3', '::', 'x' * 300, '@gateway', 'gateway@', '@', 'user@[192.0.2.1]', '192.0.2.1@example.org'],
+       'dpd': [0, -3, 'x', 2 ** 53 + 1, 'inf', '1e999', 'nan', 10 ** 400], 'index': [-1, 0, 2 ** 29, 'x'], 'psk': ['', 'x' * 500, 'päss'], 'id': ['', 'a@b@c', '1.2.3', '::', '::ffff:192.0.2.1', '::ffff:c000:201', '::192.0.2.1', '::1', '0.0.0.0', '255.255.255.255', '2001:DB8::2', '2001:db8:0:0:0:0:0:2', '192.0.2.001', '192.0.2.1/32', 'fe80::1%eth0', 'x' * 300, '@gateway', 'gateway@', '@', 'user@[192.0.2.1]', '192.0.2.1@example.org'],
        'privkey': ['garbage', ''] + OTHER_KEYS['private'], 'pubkey': ['-----BEGIN PUBLIC KEY-----\nAAAA\n-----END PUBLIC KEY-----\n'] + OTHER_KEYS['public']}
 
 
